@@ -13,6 +13,16 @@ CHECKS = {
             'DESIGN.md §4 C02',
             'Trusted: nightly rustc MIR of the same source; documentation tables as oracle. Not decided: insert_back_prioritized descend/rotate logic.',
             'abstract interpretation of MIR per enum variant (table extraction) vs documentation oracle'),
+    'C12': ('other',
+            'Wrapper matrix over all 48 typed/untyped entry points (24 string-level, 24 tree-level) plus the 3 string pipelines: each wrapper is abstractly interpreted over its MIR once per case of the base evaluator result (6 value variants + error) and must return exactly the projection its name promises, for every input. Context-free forms must forward to the same-typed _with_context_mut form with a fresh HashMapContext.',
+            'DESIGN.md §4 C12',
+            'Trusted: nightly rustc MIR; std semantics of `?` (Try::branch/FromResidual). Determinism of repeated evaluation is C15. The evaluator behind the wrappers is not decided here.',
+            'value-numbering abstract interpretation of wrapper MIR per result case (wrapper matrix)'),
+    'C14': ('other',
+            'Clause level: the 10 identifier-iterator filter closures are tabulated for all 32 operator variants and must select exactly the variant set their method name states and yield that variant\'s identifier; mutable twins agree with immutable ones; the two traversals are structurally identical (lock-step CFG comparison); not-found errors are constructed only from the evaluated node\'s / the requested identifier. Pre-order correctness of the explicit-stack traversal is not decided.',
+            'DESIGN.md §4 C14',
+            'Trusted: nightly rustc MIR; std Iterator::filter_map. Not decided: traversal order for every tree shape; renaming invariance follows only as far as classification and error provenance.',
+            'closure tabulation by abstract interpretation + sibling CFG cross-check + who-may-construct rule'),
 }
 
 PENDING_REASON = 'check not yet built in this revision of the framework (design in DESIGN.md); not claimed until its rules run'
